@@ -417,3 +417,147 @@ Proof.
   replace (Z.max 0 (b - a)) with (b - a) by lia.
   pose proof (Z.mod_pos_bound (b - a) c Hc). pose proof (Z.div_mod (b - a) c). nia.
 Qed.
+
+(* ------------------------------------------------------------------------------------------ *)
+(* anchor_before: the look-back is long enough                                                 *)
+From CG Require Import Proofs.CdateP.
+
+Lemma period_of_monthly d : period_of Monthly (cdate_of d) = midx d.
+Proof.
+  unfold cdate_of, midx, year_of, month_of. destruct (civil_from_days d) as [[y m] dd]. reflexivity.
+Qed.
+
+Lemma period_of_yearly d : period_of Yearly (cdate_of d) = year_of d.
+Proof. unfold cdate_of, year_of. destruct (civil_from_days d) as [[y m] dd]. reflexivity. Qed.
+
+Lemma year_len_le y : days_from_civil (y + 1) 1 1 - days_from_civil y 1 1 <= 366.
+Proof.
+  unfold days_from_civil. change (1 <=? 2) with true. change (1 >? 2) with false. cbv iota zeta.
+  replace (y + 1 - 1) with y by ring. lia.
+Qed.
+
+Lemma jan1_valid y : valid_date y 1 1 = true.
+Proof. apply valid_date_intro; [lia|]. pose proof (dim_bounds y 1). lia. Qed.
+
+Lemma year_of_jan1 y : year_of (days_from_civil y 1 1) = y.
+Proof. unfold year_of. rewrite (civil_from_days_from_civil _ _ _ (jan1_valid y)). reflexivity. Qed.
+
+(* the day before 1 January of year y belongs to year y - 1 *)
+Lemma year_of_before_jan1 y : year_of (days_from_civil y 1 1 - 1) = y - 1.
+Proof.
+  set (p := days_from_civil y 1 1 - 1).
+  pose proof (civil_succ p) as H. replace (p + 1) with (days_from_civil y 1 1) in H by (unfold p; ring).
+  rewrite (civil_from_days_from_civil _ _ _ (jan1_valid y)) in H.
+  unfold year_of. pose proof (civil_roundtrip p) as Hv.
+  destruct (civil_from_days p) as [[y' m'] d']. destruct Hv as [_ Hv]. apply valid_date_elim in Hv.
+  unfold next_civ in H. cbn [fst].
+  destruct (d' <? dim y' m'); [injection H; intros; lia|].
+  destruct (m' <? 12); injection H; intros; lia.
+Qed.
+
+Lemma jan1_le d : days_from_civil (year_of d) 1 1 <= d.
+Proof.
+  destruct (Z_le_gt_dec (days_from_civil (year_of d) 1 1) d) as [|Hgt]; [assumption|].
+  assert (H : year_of d <= year_of (days_from_civil (year_of d) 1 1 - 1)) by (apply year_mono; lia).
+  rewrite year_of_before_jan1 in H. lia.
+Qed.
+
+Lemma lt_next_jan1 d : d < days_from_civil (year_of d + 1) 1 1.
+Proof.
+  destruct (Z_lt_ge_dec d (days_from_civil (year_of d + 1) 1 1)) as [|Hge]; [assumption|].
+  assert (H : year_of (days_from_civil (year_of d + 1) 1 1) <= year_of d) by (apply year_mono; lia).
+  rewrite year_of_jan1 in H. lia.
+Qed.
+
+(* a day whose year is not after another's is at most 365 days after it *)
+Theorem year_le_close a sd : year_of a <= year_of sd -> a <= sd + 365.
+Proof.
+  intros H. destruct (Z_le_gt_dec a sd) as [|Hgt]; [lia|].
+  assert (year_of sd <= year_of a) by (apply year_mono; lia).
+  assert (E : year_of a = year_of sd) by lia.
+  pose proof (jan1_le sd). pose proof (lt_next_jan1 a). pose proof (year_len_le (year_of a)).
+  rewrite E in *. lia.
+Qed.
+
+(* how far after the look-back date the rrule dtstart can lie *)
+Definition anchor_slack (f : freq) : Z :=
+  match f with Daily | Weekly => 0 | Monthly => 30 | Yearly => 365 end.
+
+Theorem anchor_not_late (r : rule) (sd a : Z) :
+  0 < r_interval r -> safe_anchor r sd = Some a -> a <= sd + anchor_slack (r_freq r).
+Proof.
+  intros Hk H.
+  pose proof (anchor_not_late_days r sd a Hk H) as Hd.
+  pose proof (anchor_not_late_period r sd a Hk H) as Hp.
+  destruct (r_freq r); cbn [anchor_slack].
+  - lia.
+  - lia.
+  - rewrite !period_of_monthly in Hp. apply midx_le_close. exact Hp.
+  - rewrite !period_of_yearly in Hp. apply year_le_close. exact Hp.
+Qed.
+
+(* ---- zones: the offsets the conversions use are those of the table ---- *)
+Definition zone_offsets (z : zone) : list Z := off0 z :: map snd (trans z).
+
+Lemma offset_at_go_in tr t : forall cur, In (offset_at_go cur tr t) (cur :: map snd tr).
+Proof.
+  induction tr as [|[T o] rest IH]; intros cur; cbn [offset_at_go map snd].
+  - left. reflexivity.
+  - destruct (T <=? t); [right; apply IH|left; reflexivity].
+Qed.
+
+Lemma wall_offset_go_in tr w f : forall cur, In (wall_offset_go cur tr w f) (cur :: map snd tr).
+Proof.
+  induction tr as [|[T o] rest IH]; intros cur; cbn [wall_offset_go map snd].
+  - left. reflexivity.
+  - destruct (T + (if f then Z.min cur o else Z.max cur o) <=? w); [right; apply IH|left; reflexivity].
+Qed.
+
+Lemma offset_at_in z t : In (offset_at z t) (zone_offsets z).
+Proof. apply offset_at_go_in. Qed.
+Lemma wall_offset_in z w f : In (wall_offset z w f) (zone_offsets z).
+Proof. apply wall_offset_go_in. Qed.
+
+(* any two UTC offsets of the zone's table differ by at most S *)
+Definition zone_spread_le (z : zone) (S : Z) : Prop :=
+  forall o o', In o (zone_offsets z) -> In o' (zone_offsets z) -> o - o' <= S.
+
+(* Every occurrence the window [A, ..) can see lies at or after the rrule dtstart: an occurrence
+   on a local date before dtstart ends at or before A.  Needs: the pattern's start_seconds within
+   a day (__init__), interval >= 1, and a zone whose offsets differ by at most half a day (all of
+   tzdata except the date-line jumps of Pacific/Apia, Kwajalein, ...).  The duration is arbitrary:
+   the look-back buffer adds it on top of a full period. *)
+Theorem anchor_before (r : rule) (A a d S : Z) (i : ivl) :
+  0 < r_interval r ->
+  0 <= r_sod r < DAY ->
+  zone_spread_le (r_zone r) S -> 2 * S <= DAY ->
+  safe_anchor r (local_day (r_zone r) (A - lookback_buffer r)) = Some a ->
+  d < a ->
+  occurrence_to_interval r d = Some i ->
+  fend i <= A.
+Proof.
+  intros Hk Hsod Hz HS Ha Hd Hi.
+  pose proof (anchor_not_late r _ a Hk Ha) as Hlate.
+  set (z := r_zone r) in *.
+  unfold occurrence_to_interval in Hi.
+  destruct ((r_sod r <? 0) || (DAY <=? r_sod r)); [discriminate|].
+  injection Hi as <-. fold z. cbn [fend en].
+  unfold wall_to_utc, utc_to_wall, mk_wall.
+  set (ws := d * DAY + r_sod r).
+  set (o3 := wall_offset z ws false).
+  set (o2 := offset_at z (ws - o3)).
+  set (o1 := wall_offset z (ws - o3 + o2 + r_dur r) false).
+  unfold local_day, wall_day, utc_to_wall in Hlate.
+  set (t0 := A - lookback_buffer r) in *.
+  set (o4 := offset_at z t0) in *.
+  assert (H23 : o2 - o3 <= S) by (apply Hz; [apply offset_at_in|apply wall_offset_in]).
+  assert (H41 : o4 - o1 <= S) by (apply Hz; [apply offset_at_in|apply wall_offset_in]).
+  assert (Hsd : (t0 + o4) / DAY * DAY <= t0 + o4) by (unfold DAY; lia).
+  unfold t0, lookback_buffer in Hsd.
+  assert (Hper : DAY * (anchor_slack (r_freq r) + 1) <= r_interval r * period_secs (r_freq r)).
+  { destruct (r_freq r); cbn [anchor_slack period_secs]; unfold DAY; nia. }
+  set (sd := (t0 + o4) / DAY) in *.
+  assert (Hd' : d * DAY <= (sd + anchor_slack (r_freq r) - 1) * DAY) by (unfold DAY; nia).
+  unfold ws. unfold t0, lookback_buffer in *.
+  unfold DAY in *. nia.
+Qed.
